@@ -66,7 +66,7 @@ def run(tier, seed, pid=PID):
             src, dst, out = build(base, r)
             mode = r.choice(["preserve", "preserve", "follow", "skip"])
             kind = KINDS[i % len(KINDS)]
-            forced = (i % 10 == 9 and pid != "C02")      # the known follow-mode class (C17-KF1) is exercised on every run
+            forced = (i % 10 == 9 and pid != "C02")      # relative and chained links in follow mode, started outside the link's directory (the class fixed by 93de336), on every run
             if forced:
                 mode, kind = "follow", ("rel" if i % 20 == 9 else "chain")
             if kind == "chain":
@@ -100,7 +100,7 @@ def run(tier, seed, pid=PID):
                 tgt = target_of(kind, src, out, alt)
                 os.symlink(tgt, lpath)
                 t_id = tids.setdefault(tgt, len(tids) + 1)
-                steps.append("%d:%s" % (t_id, cwd_class(tgt, cwd, cids)))
+                steps.append("%d:%s" % (t_id, cwd_class(tgt, src, cids)))      # resolution from the directory that holds the link
                 xargs = ["-X"] if i % 3 == 0 else []
                 if i % 3 == 0:
                     os.setxattr(src + "/t1.txt", "user.note", b"hello")
@@ -129,7 +129,7 @@ def run(tier, seed, pid=PID):
                         rel = not os.path.isabs(tgt)
                         f = {"world": i, "mode": mode, "kind": kind, "prior": prior, "run": k + 1, "cwd_is_src": cwd == src,
                              "why": "follow mode: destination is not a regular copy of the linked file (found %s)" % outs[-1], "prop": "C17",
-                             "klass": "follow-relative" if (rel and cwd != src) or kind == "chain" else None}
+                             "klass": None}
                         if f["klass"] in known:
                             hits.setdefault(known[f["klass"]]["id"], []).append(f)
                         else:
